@@ -1,4 +1,5 @@
 import McpModel.Sessions.BridgeStateless
+import McpModel.Sessions.BridgeOps8
 /-!
 # Bridge (E7 / C11): the monitor raises no clause on any observation trace of the model
 
@@ -156,6 +157,8 @@ theorem sim_step {cfg : Cfg} {d d' : RState} {m : Mon} {o : Obs} (hs : SimAny cf
       | tick n => exact sim_tick hs n hop
       | fault f => exact sim_fault hs f hop
       | close ref => exact sim_close hs ref hop
+      | postb ref u => exact sim_postb hs ref u hop
+      | body n fin => exact sim_body hs n fin hop
     exact ⟨key.1, Or.inl ⟨hsl, key.2⟩⟩
   · have key := sim_sl_step hs op hop
     exact ⟨key.1, Or.inr ⟨hsl, key.2⟩⟩
